@@ -49,6 +49,8 @@ type c18Cfg struct {
 	TLSCfg   bool          // Config.SSLConfig is set although Config.SSL is false: still a plain connection to 6667
 	FloodCtl bool          // flood protection on (Config.Flood false)
 	Chatter  time.Duration // > 0: a user task sends a short line every Chatter while the connection is up
+	Late     string        // "" = everything is in the Config given to Client() | "flags" = SSL, password, negotiation and PingFreq are set through Conn.Config() after Client(), which saw the opposite values | "server" = so is the server
+	Twice    bool          // Connect() is called once more while each connection is up (it cannot succeed: nothing may be dialled or sent again)
 	Via      string        // "" = Connect() both times | "to" = ConnectTo(server) the second time | "to-pass" = ConnectTo(server, password) both times with an empty Config.Pass
 }
 
@@ -72,11 +74,45 @@ func (c c18Cfg) extra() string {
 	if c.Via != "" {
 		x += " connect-via=" + c.Via
 	}
+	if c.Late != "" {
+		x += " set-after-Client()=" + c.Late
+	}
+	if c.Twice {
+		x += " connect-again-while-connected"
+	}
 	return x
 }
 
 func (c c18Cfg) params() map[string]interface{} {
-	return map[string]interface{}{"given": c.Given, "pass": c.Pass, "negotiation": c.Cap, "ssl": c.SSL, "server": c.Server.Addr, "pingfreq": c.PingFreq.String(), "tracking": c.Tracking, "welcome": c.Welcome, "tlscfg": c.TLSCfg, "floodctl": c.FloodCtl, "chatter": c.Chatter.String(), "via": c.Via}
+	return map[string]interface{}{"given": c.Given, "pass": c.Pass, "negotiation": c.Cap, "ssl": c.SSL, "server": c.Server.Addr, "pingfreq": c.PingFreq.String(), "tracking": c.Tracking, "welcome": c.Welcome, "tlscfg": c.TLSCfg, "floodctl": c.FloodCtl, "chatter": c.Chatter.String(), "via": c.Via, "late": c.Late, "twice": c.Twice}
+}
+
+// client builds the client: normally Client(c.build()); with Late, Client() sees a Config with the opposite
+// flags (and another server), and the real values are written through Conn.Config() afterwards.
+func (c c18Cfg) client() *client.Conn {
+	cfg := c.build()
+	if c.Late == "" {
+		return client.Client(cfg)
+	}
+	early := *cfg
+	early.SSL = !cfg.SSL
+	early.SSLConfig = nil
+	if early.SSL {
+		early.SSLConfig = &tls.Config{InsecureSkipVerify: true}
+	}
+	early.EnableCapabilityNegotiation = !cfg.EnableCapabilityNegotiation
+	early.Pass = map[bool]string{true: "", false: "early-password"}[cfg.Pass != ""]
+	early.PingFreq = map[bool]time.Duration{true: 0, false: 4 * time.Second}[cfg.PingFreq > 0]
+	if c.Late == "server" {
+		early.Server = "early.example"
+	}
+	cl := client.Client(&early)
+	live := cl.Config()
+	live.SSL, live.SSLConfig, live.EnableCapabilityNegotiation, live.Pass, live.PingFreq = cfg.SSL, cfg.SSLConfig, cfg.EnableCapabilityNegotiation, cfg.Pass, cfg.PingFreq
+	if c.Late == "server" {
+		live.Server = cfg.Server
+	}
+	return cl
 }
 
 func (c c18Cfg) build() *client.Config {
@@ -148,6 +184,7 @@ func c18RunConfig(e *Enum, c c18Cfg) {
 		connIdx   [cycles]int
 		regLines  [cycles][]string
 		events    []string
+		again     [cycles]bool
 		wantNick  string
 		wantIdent string
 		wantName  string
@@ -162,7 +199,7 @@ func c18RunConfig(e *Enum, c c18Cfg) {
 	o := RunSeq(vx.Options{MaxSteps: 200000, Horizon: 6 * time.Hour}, func(env *vx.Env) {
 		cfg := c.build()
 		wantNick, wantIdent, wantName = cfg.Me.Nick, cfg.Me.Ident, cfg.Me.Name
-		cl := client.Client(cfg)
+		cl := c.client()
 		if c.Tracking {
 			cl.EnableStateTracking()
 		}
@@ -199,6 +236,12 @@ func c18RunConfig(e *Enum, c c18Cfg) {
 			}
 			errs[cy] = "<nil>"
 			vx.Quiesce()
+			if c.Twice {
+				if err := cl.Connect(); err == nil {
+					again[cy] = true
+				}
+				vx.Quiesce()
+			}
 			connAt[cy] = env.Now()
 			regLines[cy] = append([]string{}, vc.Lines()...)
 			if c.Welcome {
@@ -360,9 +403,16 @@ func c18ConfigJob(srv c18Server, ssl bool, pf time.Duration) Job {
 						if ssl && (tw[0] || tw[1]) {
 							continue // the TLS handshake fails by script: nothing more to see
 						}
-						c := c18Cfg{Given: given, Pass: pass, Cap: cp, SSL: ssl, Server: srv, PingFreq: pf, Tracking: tw[0], Welcome: tw[1]}
-						e.Case(c.String())
-						c18RunConfig(e, c)
+						for _, late := range []string{"", "flags", "server"} {
+							for _, twice := range []bool{false, true} {
+								if ssl && twice {
+									continue // no connection comes up
+								}
+								c := c18Cfg{Given: given, Pass: pass, Cap: cp, SSL: ssl, Server: srv, PingFreq: pf, Tracking: tw[0], Welcome: tw[1], Late: late, Twice: twice}
+								e.Case(c.String())
+								c18RunConfig(e, c)
+							}
+						}
 					}
 				}
 			}
@@ -744,7 +794,7 @@ func c18LenJob(from, to int) Job {
 func init() {
 	Register(&Prop{
 		ID:   "C18",
-		Rule: "configurations: full product of NewConfig(nick) defaults / given ident+name x password unset/set x negotiation on/off x SSL on/off x 6 server spellings (name, IPv4, bracketed IPv6; with and without port) x PingFreq {0, -1s, 3s} (thorough: also -1ns, 0.7s, 1.5s, 7s, 11s), plus (job keepalive-under-traffic) flood protection on/off x a user line every 2.5 s / 1 s / never x Config.SSLConfig set with SSL off, and connects through ConnectTo(server) / ConnectTo(server, password), each run as a session of two connects on one client with 10 s of virtual time after each (SSL: the server closes during the handshake, only the dial address and the failure of Connect are observed); PING answers: 14 tokens (single byte, with spaces, leading colon, empty-but-present, inner colons, 400 bytes, ...) in trailing form, with a source, in middle form and with a second parameter where legal; each alone in five surroundings, all ordered pairs in one write with chat between or after, and all variants in one session (three rounds, seven rotations, with and without the client's own keep-alive running), before and after the welcome; thorough: also every token length 1..470; one case = one configuration / one probe script, distinct = distinct configurations / scripts",
+		Rule: "configurations: full product of NewConfig(nick) defaults / given ident+name x password unset/set x negotiation on/off x SSL on/off x 6 server spellings (name, IPv4, bracketed IPv6; with and without port) x PingFreq {0, -1s, 3s} (thorough: also -1ns, 0.7s, 1.5s, 7s, 11s) x the settings given to Client() / SSL, password, negotiation and PingFreq written through Conn.Config() after Client() saw the opposite values / the server too x Connect() called once / once more while the connection is up, plus (job keepalive-under-traffic) flood protection on/off x a user line every 2.5 s / 1 s / never x Config.SSLConfig set with SSL off, and connects through ConnectTo(server) / ConnectTo(server, password), each run as a session of two connects on one client with 10 s of virtual time after each (SSL: the server closes during the handshake, only the dial address and the failure of Connect are observed); PING answers: 14 tokens (single byte, with spaces, leading colon, empty-but-present, inner colons, 400 bytes, ...) in trailing form, with a source, in middle form and with a second parameter where legal; each alone in five surroundings, all ordered pairs in one write with chat between or after, and all variants in one session (three rounds, seven rotations, with and without the client's own keep-alive running), before and after the welcome; thorough: also every token length 1..470; one case = one configuration / one probe script, distinct = distinct configurations / scripts",
 		Assumptions: []string{
 			"the address is observed at the registered proxy dialler (Config.Proxy set); the direct net.Dialer path passes the same Config.Server string",
 			"for the bracketed IPv6 literal without port the port is expected to be appended to the literal as written ([::1]:6667)",
